@@ -585,13 +585,17 @@ impl<T> Drop for WriteFuture<'_, T> {
     let node = self.node;
     let mut g = self.lock.waiters.lock();
     // SAFETY: we own the node.
-    if unsafe { g.unlink(node) } {
+    let was_queued = unsafe { g.unlink(node) };
+    if was_queued {
       self.lock.fix_flags(&mut g);
     }
     drop(g);
     let was_woken = unsafe { (*node).state.load(Ordering::Acquire) } == WOKEN;
     unsafe { drop(Box::from_raw(node)) };
-    if was_woken {
+    // A queued writer holds back the readers that arrive after it (writer
+    // preference). When it gives up, those readers must be re-evaluated, or they
+    // sleep next to a lock that is free for them.
+    if was_woken || was_queued {
       self.lock.wake_waiters();
     }
   }
